@@ -229,29 +229,83 @@ struct Leaf {
 };
 
 // ---------------------------------------------------------------- controllable leaf in awaitable form
-// (value / error only: with async stacks the awaiter is handed a coro_resumer handle, which has no unhandled_done())
-struct AwLeaf {
-  World* w; int id;
-  struct Awaiter {
-    World* w; LeafCtl* c; char ch = 'v';
-    bool await_ready() noexcept { return false; }
-    template <class P> std::coroutine_handle<> await_suspend(std::coroutine_handle<P> h) noexcept {
-      c->started = true; c->completed = false;
-      w->note("LeafStart", c->id, 0);
-      vrt::ev("{\"e\":\"LeafStart\",\"l\":%d,\"stopped\":0,\"aw\":1}", c->id);
-      std::coroutine_handle<> cont = h;
-      if (c->inl) { finish(c->ch); return cont; }
-      c->complete = [this, cont](char x) { finish(x); cont.resume(); };
-      return std::noop_coroutine();
+// (value / error only: with async stacks the awaiter is handed a coro_resumer handle, which has no unhandled_done()).
+// A plain awaitable that is no sender: task<>'s await_transform routes it through unifex::await_transform (which wraps it
+// into _awaitable_wrapper when async stacks are on), as_sender and with_scheduler_affinity.  Flavours = the shapes of
+// await_ready / await_suspend the wrapper has to cope with:
+//   'M'  handle-returning await_suspend: returns the awaiting coroutine itself (inline) / noop_coroutine (deferred)
+//   'H'  handle-returning await_suspend: symmetric transfer to a harness trampoline coroutine that resumes the awaiter (inline)
+//   'B'  bool await_suspend: returns false = does not suspend (inline) / true, resumed later by the script (deferred)
+//   'V'  await_ready() == true (inline) / void await_suspend, resumed later by the script (deferred)
+struct Tramp {        // a coroutine that, when resumed, destroys itself and transfers to `target`
+  struct promise_type {
+    std::coroutine_handle<> target;
+    Tramp get_return_object() noexcept { return Tramp{std::coroutine_handle<promise_type>::from_promise(*this)}; }
+    std::suspend_always initial_suspend() noexcept { return {}; }
+    auto final_suspend() noexcept {
+      struct A {
+        std::coroutine_handle<> t;
+        bool await_ready() noexcept { return false; }
+        std::coroutine_handle<> await_suspend(std::coroutine_handle<> me) noexcept { auto tt = t; me.destroy(); return tt; }
+        void await_resume() noexcept {}
+      };
+      return A{target};
     }
-    void finish(char x) noexcept {
-      c->completed = true; c->started = false; c->complete = nullptr; ch = x;
-      vrt::ev("{\"e\":\"LeafComplete\",\"l\":%d,\"ch\":\"%c\"}", c->id, x);
-    }
-    Val await_resume() { if (ch == 'e') throw Tagged{{c->id}}; return Val(w, Payload{c->id}); }
+    void return_void() noexcept {}
+    void unhandled_exception() noexcept { std::terminate(); }
   };
-  Awaiter operator co_await() const noexcept { return Awaiter{w, &w->leaf[id]}; }
+  std::coroutine_handle<promise_type> h;
 };
+inline Tramp make_tramp() { co_return; }
+
+struct AwBase {
+  World* w; LeafCtl* c; char ch = 'v';
+  void begin() noexcept {
+    c->started = true; c->completed = false;
+    w->note("LeafStart", c->id, 0);
+    vrt::ev("{\"e\":\"LeafStart\",\"l\":%d,\"stopped\":0,\"aw\":1}", c->id);
+  }
+  void finish(char x) noexcept {
+    c->completed = true; c->started = false; c->complete = nullptr; ch = x;
+    vrt::ev("{\"e\":\"LeafComplete\",\"l\":%d,\"ch\":\"%c\"}", c->id, x);
+  }
+  void defer(std::coroutine_handle<> cont) { c->complete = [this, cont](char x) { finish(x); cont.resume(); }; }
+  Val await_resume() { if (ch == 'e') throw Tagged{{c->id}}; return Val(w, Payload{c->id}); }
+};
+template <char F> struct AwLeafT {
+  World* w; int id;
+  struct Awaiter : AwBase {
+    bool await_ready() noexcept {
+      if constexpr (F == 'V') { if (this->c->inl) { this->begin(); this->finish(this->c->ch); return true; } }
+      return false;
+    }
+    template <class P> auto await_suspend(std::coroutine_handle<P> h) noexcept {
+      std::coroutine_handle<> cont = h;
+      this->begin();
+      if constexpr (F == 'M') {
+        if (this->c->inl) { this->finish(this->c->ch); return cont; }
+        this->defer(cont);
+        return std::coroutine_handle<>(std::noop_coroutine());
+      } else if constexpr (F == 'H') {
+        if (this->c->inl) {
+          this->finish(this->c->ch);
+          Tramp t = make_tramp(); t.h.promise().target = cont;
+          return std::coroutine_handle<>(t.h);
+        }
+        this->defer(cont);
+        return std::coroutine_handle<>(std::noop_coroutine());
+      } else if constexpr (F == 'B') {
+        if (this->c->inl) { this->finish(this->c->ch); return false; }
+        this->defer(cont);
+        return true;
+      } else {
+        this->defer(cont);       // 'V', deferred (the inline mode never gets here)
+      }
+    }
+  };
+  Awaiter operator co_await() const noexcept { return Awaiter{{w, &w->leaf[id]}}; }
+};
+using AwLeaf = AwLeafT<'M'>;
 
 // ---------------------------------------------------------------- outer receiver
 struct Recv {
@@ -277,7 +331,8 @@ struct Recv {
 //   'Y' a l    register cleanup action a that itself co_awaits leaf sender l (the action suspends)
 //   'A' i b    co_await leaf sender i; b=1: catch its exception and continue (b=0: log and rethrow)
 //   'N' i b    co_await as_sender(awaitable leaf i)          (awaitable -> sender -> awaitable round trip)
-//   'M' i b    co_await awaitable leaf i                     (await_transform of a natural awaitable)
+//   'M' i b    co_await awaitable leaf i                     (await_transform of a natural awaitable; handle-returning await_suspend)
+//   'H' 'B' 'V'  ... other awaiter shapes of the same leaf (trampoline handle / bool await_suspend / await_ready or void await_suspend)
 //   'T' c b    co_await run(child c); b as for 'A'
 //   'O' c b    co_await done_as_optional(run(child c))       (done becomes an empty optional: the parent continues)
 //   'S' c      co_await schedule(context c)
@@ -328,12 +383,15 @@ inline unifex::task<Val> run(World& w, int k, FrameTag) {
         vrt::ev("{\"e\":\"Reg\",\"k\":%d,\"a\":%d," CTXF "}", k, s.a, w.cur().k, w.cur().n);
         w.note("Reg", k, s.a);
         break;
-      case 'A': case 'N': case 'M':
+      case 'A': case 'N': case 'M': case 'H': case 'B': case 'V':
         vrt::ev("{\"e\":\"Await\",\"k\":%d,\"l\":%d}", k, s.a);
         try {
           if (s.k == 'A') { Val v = co_await Leaf(&w, s.a); gotValue("AwaitValue", s, v.p); }
           else if (s.k == 'N') { Val v = co_await unifex::as_sender(AwLeaf{&w, s.a}); gotValue("AwaitValue", s, v.p); }
-          else { Val v = co_await AwLeaf{&w, s.a}; gotValue("AwaitValue", s, v.p); }
+          else if (s.k == 'M') { Val v = co_await AwLeafT<'M'>{&w, s.a}; gotValue("AwaitValue", s, v.p); }
+          else if (s.k == 'H') { Val v = co_await AwLeafT<'H'>{&w, s.a}; gotValue("AwaitValue", s, v.p); }
+          else if (s.k == 'B') { Val v = co_await AwLeafT<'B'>{&w, s.a}; gotValue("AwaitValue", s, v.p); }
+          else { Val v = co_await AwLeafT<'V'>{&w, s.a}; gotValue("AwaitValue", s, v.p); }
         } catch (Tagged& t) {
           gotError("AwaitThrew", s, t.p);
           if (!s.b) throw;
